@@ -431,6 +431,38 @@ func checkIntrinsicArms(c *Ctx, r *Rec, cr *collRoles, rankD *ast.FuncDecl, rule
 						lossy = fmt.Sprintf("the operands are extracted as %s values (%s) but handed to the leaf as %s values: the conversion is not exact for all values (integers above 2^53 collapse as float64), so distinct values rank Equal while CompareValues tells them apart", classOf(src), exprStr(a0), classOf(dst))
 					}
 				}
+				// the extraction may be done by an unexported helper: a conversion inside it that
+				// changes the class of values is the same loss
+				if lossy == "" {
+					if hc, ok := ast.Unparen(a0).(*ast.CallExpr); ok {
+						if cf := calleeOf(info, hc); cf != nil && !cf.Exported() {
+							if hd := c.declOf(cf); hd != nil && hd.Body != nil && c.infoFor(hd) == info {
+								inspectNoLit(hd.Body, func(x ast.Node) bool {
+									rs, ok := x.(*ast.ReturnStmt)
+									if !ok || len(rs.Results) != 1 || lossy != "" {
+										return true
+									}
+									conv, ok := ast.Unparen(rs.Results[0]).(*ast.CallExpr)
+									if !ok || len(conv.Args) != 1 {
+										return true
+									}
+									if tv, isT := info.Types[conv.Fun]; !isT || !tv.IsType() {
+										return true
+									}
+									from, to := info.TypeOf(conv.Args[0]), info.TypeOf(conv)
+									if from == nil || to == nil {
+										return true
+									}
+									cf, ct := classOf(from), classOf(to)
+									if cf != ct && cf != "?" && ct != "?" {
+										lossy = fmt.Sprintf("the helper %s converts %s values (%s) into %s values before they are ranked: the conversion is not exact for all values (64-bit integers above 2^53 collapse as float64, unsigned values above 2^63 turn negative), so distinct values rank Equal or in the wrong order while CompareValues tells them apart", hd.Name.Name, cf, exprStr(conv.Args[0]), ct)
+									}
+									return true
+								})
+							}
+						}
+					}
+				}
 				switch {
 				case lossy != "":
 					bad = lossy
